@@ -15,34 +15,58 @@ def consts(keys, hk, modes, sessions):
     return dict(Keys=q(keys), HostileKeys=q(hk), Modes=q(modes), Sessions=str(sessions))
 
 
+NON_BYTES_KEYS = ['not bytes', 12345, 7, True, [1, 2, 3], bytearray(b'k'), 2.5, range(3)]
+
+
 def key_type_checks(ctx):
-    """non-bytes keys are rejected with TypeError by Listener and Client; an
-    AuthenticationString refuses to be pickled outside process spawning"""
+    """non-bytes keys are rejected with TypeError by Listener and Client (before any I/O: a call that
+    blocks instead is bounded and reported); an AuthenticationString refuses to be pickled outside
+    process spawning"""
     import pickle
+    import threading
     from billiard.connection import Client, Listener
     from billiard.process import AuthenticationString
     d = tempfile.mkdtemp(prefix='verif-auth-', dir='/var/tmp')
     addr = os.path.join(d, 'sock')
     bad = []
+    cases = [0]
+
+    def attempt(what, fn):
+        """fn must raise TypeError; bounded: it may block if the key was taken for a real one"""
+        cases[0] += 1
+        out = {}
+
+        def body():
+            try:
+                r = fn()
+                out['r'] = 'accepted'
+                try:
+                    r.close()
+                except Exception:
+                    pass
+            except TypeError:
+                out['r'] = 'typeerror'
+            except Exception as exc:      # used as a key and failed later: not rejected as a type
+                out['r'] = 'other:' + type(exc).__name__
+        t = threading.Thread(target=body, daemon=True)
+        t.start()
+        t.join(20)
+        r = out.get('r', 'blocked (no TypeError within 20 s)')
+        if r != 'typeerror':
+            bad.append('%s: %s' % (what, r))
+
     try:
-        try:
-            Listener(addr, authkey='not bytes').close()
-            bad.append('Listener accepted a str key')
-        except TypeError:
-            pass
-        if os.path.exists(addr):
-            os.unlink(addr)
-        with Listener(addr, authkey=b'k') as lis:
-            try:
-                Client(addr, authkey='not bytes')
-                bad.append('Client accepted a str key')
-            except TypeError:
-                pass
-            try:
-                Client(addr, authkey=12345)
-                bad.append('Client accepted an int key')
-            except TypeError:
-                pass
+        for k in NON_BYTES_KEYS:
+            attempt('Listener(authkey=%r)' % (k,), lambda k=k: Listener(addr, authkey=k))
+            if os.path.exists(addr):
+                os.unlink(addr)
+        for k in NON_BYTES_KEYS:
+            # a listener of its own per attempt: Client connects before it looks at the key, and
+            # nobody accepts here, so a shared listener's backlog would fill up
+            with Listener(addr, authkey=b'k'):
+                attempt('Client(authkey=%r)' % (k,), lambda k=k: Client(addr, authkey=k))
+            if os.path.exists(addr):
+                os.unlink(addr)
         try:
             pickle.dumps(AuthenticationString(b'secret'))
             bad.append('AuthenticationString pickled outside spawning')
@@ -55,9 +79,9 @@ def key_type_checks(ctx):
             os.rmdir(d)
         except OSError:
             pass
-    ctx.note('key_type_checks', {'cases': 4, 'failed': bad})
+    ctx.note('key_type_checks', {'cases': cases[0] + 1, 'failed': bad})
     for b in bad:
-        ctx.violation('key type check: ' + b, 'keytype:' + b)
+        ctx.violation('key type check: ' + b, 'keytype:' + b.split(':')[0])
 
 
 def main(ctx):
